@@ -236,8 +236,28 @@ def norm_text(node):
     return s.replace("--", "").replace("- -", "")
 
 
-def arms_are_dual(arm_min, arm_max, odd=lambda s: False):
-    """arm_* are lists of statements (or single expressions)."""
+_MIN_FLAVOUR = {"min", "argmin", "nanmin", "nanargmin", "minimum", "idxmin", "cummin", "nsmallest", "min_metrics"}
+_MAX_FLAVOUR = {NAME_DUAL[x] for x in _MIN_FLAVOUR}
+
+
+def arm_flavour(arm):
+    """'min' / 'max' / None: which extreme the names used in an arm select (min(...), argmax, nlargest, ...)"""
+    stmts = arm if isinstance(arm, list) else [arm]
+    names = set()
+    for st in stmts:
+        for y in ast.walk(st):
+            if isinstance(y, ast.Name):
+                names.add(y.id)
+            elif isinstance(y, ast.Attribute):
+                names.add(y.attr)
+    lo, hi = bool(names & _MIN_FLAVOUR), bool(names & _MAX_FLAVOUR)
+    return "min" if lo and not hi else "max" if hi and not lo else None
+
+
+def arms_are_dual(arm_min, arm_max, odd=lambda s: False, oriented=False):
+    """arm_* are lists of statements (or single expressions).  With oriented=True a dual pair whose arms are attached to the
+    wrong modes (the arm taken under 'min' selects the maximum) is not accepted.  (For the min/max symmetry itself - C15 -
+    a consistently swapped pair is still symmetric, so orientation is only asked for where the direction matters.)"""
     if isinstance(arm_min, ast.AST):
         arm_min, arm_max = [arm_min], [arm_max]
     if len(arm_min) != len(arm_max):
@@ -245,4 +265,6 @@ def arms_are_dual(arm_min, arm_max, odd=lambda s: False):
     for a, b in zip(arm_min, arm_max):
         if norm_text(dualize(a, odd)) != norm_text(b):
             return False
+    if oriented and arm_flavour(arm_min) == "max" and arm_flavour(arm_max) == "min":
+        return False
     return True
